@@ -155,6 +155,20 @@ def run(ctx):
                         cases.append({"id": "sd%d.%d.%d.%s" % (k, p1, p2, cand[p1] + cand[p2]), "kind": "segwit-sub", "text": T(cand), "accepted": got[0] == "ok"})
                     ctx.nontriv(("segwit-sub", ver, plen, net))
     # templates x networks
+    def template_case(cid, net, tkind, h, a):
+        addr = a[1] if a[0] == "ok" else ""
+
+        def proj(cmds):
+            return [c if isinstance(c, int) else -1 for c in cmds], next((x for x in cmds if isinstance(x, bytes)), b"")
+        back = outcome(address_to_script_pubkey, addr)
+        bok = back[0] == "ok" and back[1] is not None
+        tx = outcome(TxOut.to_address, addr, 1)
+        bo, bh = proj(back[1].commands) if bok else ([], b"")
+        to, th = proj(tx[1].script_pubkey.commands) if tx[0] == "ok" else ([], b"")
+        payload = bytes([{"p2pkh": 0 if net == "mainnet" else 111, "p2sh": 5 if net == "mainnet" else 196}.get(tkind, 0)]) + h
+        cases.append({"id": cid, "kind": "template", "net": net, "tkind": tkind, "h": B(h), "addr": T(addr), "hr": [h256row(payload)],
+                      "back_ok": bok, "back_ops": bo, "back_h": B(bh), "txout_ok": tx[0] == "ok", "txout_ops": to, "txout_h": B(th)})
+
     for net in NETS:
         for tkind, cls, hl in (("p2pkh", P2PKHScriptPubKey, 20), ("p2sh", P2SHScriptPubKey, 20), ("p2wpkh", P2WPKHScriptPubKey, 20), ("p2wsh", P2WSHScriptPubKey, 32), ("p2tr", P2TRScriptPubKey, 32)):
             zero_runs = [2, 0, 1, 3, 5, 6, 12, hl - 1, hl] if tkind in ("p2pkh", "p2sh") else [2, 0, 1, 3]      # leading zero bytes of the hash (short Base58 strings)
@@ -163,19 +177,17 @@ def run(ctx):
                 if tkind == "p2tr" and rep == 1:
                     h = b"\xff" * 32                       # a 32-byte program that is not the x coordinate of a curve point (still a valid output script / address)
                 a = outcome(lambda: cls(h).address(net))
-                addr = a[1] if a[0] == "ok" else ""
-
-                def proj(cmds):
-                    return [c if isinstance(c, int) else -1 for c in cmds], next((x for x in cmds if isinstance(x, bytes)), b"")
-                back = outcome(address_to_script_pubkey, addr)
-                bok = back[0] == "ok" and back[1] is not None
-                tx = outcome(TxOut.to_address, addr, 1)
-                bo, bh = proj(back[1].commands) if bok else ([], b"")
-                to, th = proj(tx[1].script_pubkey.commands) if tx[0] == "ok" else ([], b"")
-                payload = bytes([{"p2pkh": 0 if net == "mainnet" else 111, "p2sh": 5 if net == "mainnet" else 196}.get(tkind, 0)]) + h
-                cases.append({"id": "t.%s.%s.%d" % (net, tkind, rep), "kind": "template", "net": net, "tkind": tkind, "h": B(h), "addr": T(addr), "hr": [h256row(payload)],
-                              "back_ok": bok, "back_ops": bo, "back_h": B(bh), "txout_ok": tx[0] == "ok", "txout_ops": to, "txout_h": B(th)})
+                template_case("t.%s.%s.%d" % (net, tkind, rep), net, tkind, h, a)
                 ctx.nontriv(("template", net, tkind))
+    # one scriptPubKey object asked for its address on several networks in turn (an answer must not depend on the earlier questions)
+    for ti, (tkind, cls, hl) in enumerate((("p2pkh", P2PKHScriptPubKey, 20), ("p2sh", P2SHScriptPubKey, 20), ("p2wpkh", P2WPKHScriptPubKey, 20), ("p2wsh", P2WSHScriptPubKey, 32), ("p2tr", P2TRScriptPubKey, 32))):
+        orders = [["testnet", "regtest", "signet", "mainnet", "regtest", "testnet"], ["regtest", "testnet", "mainnet", "signet"], ["signet", "regtest"], ["mainnet", "testnet", "mainnet"]]
+        for oi, order in enumerate(orders if not q else orders[:3]):
+            h = rb(hl)
+            obj = cls(h)
+            for ni, net in enumerate(order):
+                template_case("to.%s.%d.%d" % (tkind, oi, ni), net, tkind, h, outcome(obj.address, net))
+            ctx.nontriv(("template-one-object", tkind, oi))
     # WIF
     N = 0xFFFFFFFFFFFFFFFFFFFFFFFFFFFFFFFEBAAEDCE6AF48A03BBFD25E8CD0364141
     secrets = [1, 2, 255, 256, 257, N - 1, 2 ** 128, 2 ** 248 + 1] + [rng.randrange(1, N) for _ in range(3 if q else 30)]
